@@ -364,6 +364,8 @@ def _task(args):
 def run_matrix(prop, oracle_name, jobs, result, label, cap=60000):
     """jobs: list of (cfg, mode, bound)."""
     tasks = [(prop, oracle_name, cfg, mode, bound, cap) for cfg, mode, bound in jobs]
+    if not tasks:
+        result.harness_errors.append(f'vacuous run (no configuration selected): {label}')
     total = collections.Counter()
     samples, capped = [], []
     for cfg, mode, bound, st, viols, sample in common.pmap(_task, tasks, timeout=3000):
